@@ -207,7 +207,7 @@ def conclude(pid, tier, seed, insts, wall, workdir, extra):
                "peak_rss_mb": q.maxrss_mb, "cached_verdict": q.cached,
                "witness_twin": (w.verdict if w else "not needed: harness has no assumption"), "cbmc_flags": i.flags,
                "cfg": {"s": "signed char", "u": "unsigned char", "sd": "signed char, assertions on",
-                       "ud": "unsigned char, assertions on"}.get(i.cfg, i.cfg),
+                       "ud": "unsigned char, assertions on", "sb": "signed char, big-endian memory model"}.get(i.cfg, i.cfg),
                "defines": i.defs}
         if q.note:
             rec["note"] = q.note[:300]
